@@ -370,6 +370,26 @@ func (e *applierEnv) stepVariant(cs *cstate, o *ROp, variant int) (res stepResul
 		}
 	}
 
+	// the same call on a state that still lists this very request among its unpublished operations (a request that was
+	// submitted, is anchored now, and has not been pruned from the pending store): the state's entries are the caller's
+	if variant == 0 && cs.rm != nil && res.mutated == "" {
+		pending := &operation.AnchoredOperation{Type: op.Type, UniqueSuffix: op.UniqueSuffix, OperationRequest: append([]byte(nil), op.OperationRequest...),
+			TransactionTime: op.TransactionTime, ProtocolVersion: op.ProtocolVersion, AnchorOrigin: op.AnchorOrigin}
+		with := *cs.rm
+		with.UnpublishedOperations = append(append([]*operation.AnchoredOperation(nil), cs.rm.UnpublishedOperations...), pending)
+		before, listBefore := digestJSON(pending), digestJSON(with.UnpublishedOperations)
+
+		func() {
+			defer func() { _ = recover() }()
+
+			_, _ = e.applier.Apply(op, &with)
+		}()
+
+		if digestJSON(pending) != before || digestJSON(with.UnpublishedOperations) != listBefore {
+			res.mutated = "an unpublished operation that the previous state holds (the same request, pending)"
+		}
+	}
+
 	// a delta whose canonical size is exactly the maximum delta size is within the limit: the same call under a
 	// protocol whose limit is that size must give the same result (the limits are inclusive, measured on the
 	// canonical form)
